@@ -56,6 +56,10 @@ ASSUMPTIONS = [
     "schemas are created through Schema()/build_schema (validate_schema's documented precondition): type names are unique, references are closed",
     "model follows the tree WITH proposed_fixes/C13-S4-S6.patch; on the unfixed tree the labelled injections "
     "`implements_object` (S4), `bad_name_input_field` (S6) and names with a trailing newline (S7) are reported as property failures",
+    "the cached verdict is recomputed after resolvers are registered / reassigned AND after `field.arguments = [...]` (fix C13-HHH3: the rule relates a "
+    "resolver to the arguments); types, names and members edited IN PLACE (`field.type = T`, `field.name = n`, `type.fields = [...]`) followed by "
+    "`Schema.validate()` on the same Schema object are outside the statement ('recomputed after ... resolvers are reassigned'): covered only through "
+    "a cache reset (replace request / fresh Schema), stream H",
     "plain assignment of resolvers (`schema.default_resolver = f`, `type.default_resolver = f`, `field.resolver = f`, "
     "`field.subscription_resolver = f`: documented in docs/usage/defining-resolvers.rst) is part of the histories; the model follows fix C13-HH1",
     "limit of any signature-based rule: `functools.partial(f, v)` hides the positionally bound parameter from `inspect.signature` although "
@@ -101,8 +105,8 @@ def make_resolver(sig):
          NOT_CALLABLE                    a plain string object
        Every generated callable is marked `_c13_generated` (safe to call: the semantic oracle really calls it)."""
     import functools
-    if sig == NOT_CALLABLE:
-        return "not callable"
+    if sig.startswith(NOT_CALLABLE):
+        return {"": "not callable", "int": 42, "str": "resolve_f", "object": object(), "dict": {"a": 1}, "tuple": (1, 2)}[sig[len(NOT_CALLABLE) + 1:]]
     kind, _, rest = sig.partition(":")
     if kind == "wraps":
         outer_s, inner_s = rest.split("|")
@@ -365,7 +369,7 @@ def wf(t):
 # dump of the live schema. Output: multiset of rule ids that must be reported (all together).
 # ---------------------------------------------------------------------------------------------
 
-RESOLVER_RULES = {"resMissingParam", "resPosOnly", "resNeedsDefault", "resPositional", "resExtraRequired", "resCollides"}
+RESOLVER_RULES = {"resMissingParam", "resPosOnly", "resNeedsDefault", "resPositional", "resExtraRequired", "resCollides", "resNotCallable"}
 _NAME = None
 
 
@@ -471,7 +475,11 @@ def spec_rules(d, rv=True):
             args(f["args"], "dupArg", "argNotInput")
             r = f.get("resolver") or (t.get("default_resolver") if t["kind"] == "object" else None) or d.get("default_resolver")
             for rr in (r, f.get("subscription_resolver")):
-                if rr and rv and not rr.get("uninspectable"):
+                if not rr or not rv or t["kind"] != "object":     # only the fields of object types are ever resolved
+                    continue
+                if rr.get("not_callable"):
+                    out["resNotCallable"] += 1
+                elif not rr.get("uninspectable"):
                     out.update(spec_resolver_rules_data(f["args"], rr["params"]))
             pre.append(f["name"])
 
@@ -557,17 +565,18 @@ def uncallable_resolvers(schema):
     from py_gql.schema import ObjectType, InterfaceType
     bad = []
     for t in schema.types.values():
-        if not isinstance(t, (ObjectType, InterfaceType)) or t.name.startswith("__"):
-            continue
+        if not isinstance(t, ObjectType) or t.name.startswith("__"):
+            continue                         # interface fields are never resolved
         for f in t.fields:
-            picked = f.resolver or (t.default_resolver if isinstance(t, ObjectType) else None) or schema.default_resolver
+            picked = f.resolver or t.default_resolver or schema.default_resolver
             for fn in (picked, f.subscription_resolver):
                 if not fn:
                     continue
                 if not getattr(fn, "_c13_generated", False):
                     if callable(fn):
                         return None
-                    continue                 # not callable at all: nothing to inspect (fix H9)
+                    bad.append(("%s.%s" % (t.name, f.name), "not callable"))
+                    continue
                 try:
                     import inspect
                     inspect.signature(fn, follow_wrapped=False)
@@ -672,8 +681,8 @@ def add_resolvers(rng, desc, p=0.4):
                     f["resolver"] = good_sig(rng, f)
                 if rng.random() < p / 4:
                     f["subscription_resolver"] = good_sig(rng, f)
-                if rng.random() < 0.01:
-                    f["resolver"] = NOT_CALLABLE       # nothing to inspect: must not make validation raise
+                if t["kind"] == "interface" and rng.random() < 0.15:
+                    f["resolver"] = rng.choice(["root, ctx", "root", "root, ctx, info"])   # never resolved: any signature is fine
             if t["kind"] == "object" and rng.random() < 0.15:
                 t["default_resolver"] = rng.choice(["root, ctx, info, **kw", "*a, **kw"])
     if rng.random() < 0.1:
@@ -967,7 +976,7 @@ def _mk_injections():
     # ---- resolver signatures (code-built) -------------------------------------------------
     def plain_fields(d, need_args=False):
         out = []
-        for (t, i) in _fields(d, need_args=need_args):
+        for (t, i) in _fields(d, kinds=("object",), need_args=need_args):     # only object fields are ever resolved
             f = gs.desc_type(d, t)["fields"][i]
             names = [a["name"] for a in f.get("args") or []]
             if all(n.isidentifier() and not n.startswith("__") for n in names) and len(set(names)) == len(names):
@@ -1060,6 +1069,37 @@ def _mk_injections():
         f = gs.desc_type(d, pos[0])["fields"][pos[1]]
         _add_arg(f, _a("kwargs", ("named", "Int")))
         f["resolver"] = "root, ctx, info, **kwargs"
+        return None
+
+    @add("res_not_callable", lambda d: plain_fields(d, ) and [p for p in plain_fields(d) if kind_of(d, p[0]) == "object"], code_only=True)
+    def _(d, pos, rng):
+        f = gs.desc_type(d, pos[0])["fields"][pos[1]]
+        f[rng.choice(["resolver", "resolver", "subscription_resolver"])] = NOT_CALLABLE + ":" + rng.choice(["int", "str", "object", "dict", "tuple"])
+        return "resNotCallable"
+
+    @add("res_type_default_not_callable", lambda d: [t["name"] for t in d["types"] if t["kind"] == "object" and any(not f.get("resolver") for f in t["fields"])], code_only=True)
+    def _(d, pos, rng):
+        gs.desc_type(d, pos)["default_resolver"] = NOT_CALLABLE + ":" + rng.choice(["object", "dict", "str"])
+        return "resNotCallable"
+
+    @add("iface_field_unused_resolver", lambda d: [(t, i) for (t, i) in _fields(d) if kind_of(d, t) == "interface"], code_only=True)
+    def _(d, pos, rng):
+        # an interface field is never resolved: whatever sits in its resolver slot cannot break a call
+        gs.desc_type(d, pos[0])["fields"][pos[1]]["resolver"] = rng.choice(["root, ctx", "root", NOT_CALLABLE + ":int"])
+        return None
+
+    @add("strict_default_with_own_resolvers", lambda d: [()] if any(t["kind"] == "interface" for t in d["types"]) else [], code_only=True)
+    def _(d, pos, rng):
+        # schema-wide default resolver without **kwargs; every OBJECT field with arguments has its own compatible resolver
+        d["default_resolver"] = "root, ctx, info"
+        for t in d["types"]:
+            if t["kind"] == "object":
+                t["default_resolver"] = None
+                for f in t["fields"]:
+                    if f.get("args") and not f.get("resolver"):
+                        f["resolver"] = "root, ctx, info, **kw"
+                    if f.get("resolver") and f["resolver"].startswith("root, ctx") and "**" not in f["resolver"] and f.get("args"):
+                        f["resolver"] = "root, ctx, info, **kw"
         return None
 
     @add("res_type_default_bad", lambda d: [t["name"] for t in d["types"] if t["kind"] == "object" and t["name"] != "Query"
@@ -1496,7 +1536,7 @@ def apply_injections(rng, desc, k, only=None, allowed=None):
         poss = [p for p in poss if touched_type(inj, p) is None
                 or (touched_type(inj, p) in original and touched_type(inj, p) not in used)]
         if labels and inj.name in ("no_query", "root_not_object", "iface_field_missing", "iface_field_type", "iface_arg_missing",
-                                   "iface_arg_type", "dup_interface", "implements_object"):
+                                   "iface_arg_type", "dup_interface", "implements_object", "strict_default_with_own_resolvers"):
             continue   # these interact with other labels (shared interface / root); used alone
         if not poss:
             if only is not None:
@@ -1518,8 +1558,8 @@ def apply_injections(rng, desc, k, only=None, allowed=None):
             if td:
                 used.update(td.get("interfaces") or [])
                 used.update(x["name"] for x in d["types"] if t in (x.get("interfaces") or []))
-        if only is not None:
-            break
+        if only is not None or inj.name == "strict_default_with_own_resolvers":
+            break           # that edit fixes the resolvers of every field: nothing is added after it
     return d, labels, code_only or not sdl_ok
 
 
@@ -2316,7 +2356,7 @@ def stream_resolver_signatures(ctx, batch):
         if ctx.time_left() < 12:
             break
         sig = gen_signature(rng)
-        form = rng.choice(["plain", "plain", "plain", "wraps", "wraps", "partial", "method", "instance", "class"])
+        form = rng.choice(["plain", "plain", "plain", "wraps", "wraps", "partial", "method", "instance", "class", "notcallable"])
         if form == "wraps":
             # wider / narrower / unrelated outer signature around the generated inner one (and the reverse)
             outer = rng.choice(["root, ctx, info, **kw", "*a, **kw", "root, ctx, info", "root, ctx", gen_signature(rng)])
@@ -2325,6 +2365,8 @@ def stream_resolver_signatures(ctx, batch):
             n = rng.choice([0, 0, 1])
             kws = rng.choice(["", "", "x", "z", "info"])
             sig = "partial:%s|%d|%s" % (sig, n, kws)
+        elif form == "notcallable":
+            sig = NOT_CALLABLE + ":" + rng.choice(["int", "str", "object", "dict", "tuple"])
         elif form != "plain":
             sig = "%s:%s" % (form, sig)
         try:
@@ -2364,15 +2406,19 @@ def gen_history(rng, desc, length):
         t = rng.choice(objs)
         f = rng.choice(t["fields"])
         good = good_sig(rng, f)
-        bad = rng.choice(["root, ctx", "root, ctx, info, zz_extra", "root", "root, ctx, info"])
+        bad = rng.choice(["root, ctx", "root, ctx, info, zz_extra", "root", "root, ctx, info", NOT_CALLABLE + ":str", NOT_CALLABLE + ":tuple"])
         sig = good if rng.random() < 0.55 else bad
         if r < 0.30:
             ops.append({"op": "validate"})
+        elif r < 0.34:
+            # the arguments of a field replaced by plain assignment (compatibility is resolver AND arguments)
+            ops.append({"op": "assign_arguments", "type": t["name"], "field": f["name"],
+                        "mode": rng.choice(["copy", "add_required", "add_optional", "drop"])})
         elif r < 0.44:
             # documented plain assignment: schema / type / field level (+ the field's subscription resolver)
             level = rng.choice([0, 1, 2, 2, 3])
             asig = sig if level >= 2 else rng.choice(["root, ctx, info, **kw", "*a, **kw", "root, ctx", "root", "root, ctx, info"])
-            if rng.random() < 0.2:
+            if rng.random() < 0.2 and not asig.startswith(NOT_CALLABLE):
                 asig = "wraps:%s|%s" % (rng.choice(["root, ctx, info, **kw", "root, ctx"]), asig)
             ops.append({"op": "assign", "level": level, "type": t["name"], "field": f["name"], "sig": asig, "reuse": rng.random() < 0.15})
         elif r < 0.62:
@@ -2455,6 +2501,25 @@ def run_history_real(schema, ops):
                 mop.update({"type": op["type"], "field": op["field"], "resolver": canon_schema.dump_resolver(fn),
                             "allow_override": op["allow_override"], "same": same})
                 getattr(schema, k)(op["type"], op["field"], fn, allow_override=op["allow_override"])
+            elif k == "assign_arguments":
+                from py_gql.schema import Argument, Int, NonNullType
+                t = schema.types.get(op["type"])
+                fld = t.field_map.get(op["field"]) if isinstance(t, ObjectType) else None
+                if fld is None or (not fld.arguments and op["mode"] in ("copy", "drop")):
+                    # nothing to assign / an empty list for an empty list: the snapshot validate() compares is unchanged
+                    mops.append({"op": "assign", "level": 2, "type": op["type"], "field": op["field"],
+                                 "resolver": {"uninspectable": False, "params": []}, "same": True})      # a no-op for the model
+                    trace.append({"outcome": "ok", "cached": verdict_cached(schema), "fresh_valid": real_validate(schema)[0] == "valid"})
+                    continue
+                new = [Argument(a.name, a.type, **({"default_value": a.default_value} if a.has_default_value else {})) for a in fld.arguments]
+                if op["mode"] == "add_required":
+                    new.append(Argument("zz_req%d" % len(new), NonNullType(Int)))
+                elif op["mode"] == "add_optional":
+                    new.append(Argument("zz_opt%d" % len(new), Int))
+                elif op["mode"] == "drop" and new:
+                    new.pop()
+                fld.arguments = new
+                mop.update({"type": op["type"], "field": op["field"], "args": [dict(canon_schema.dump_arg(a), python_name=a.python_name) for a in new]})
             elif k == "assign":
                 key = ("assign", op["level"], op["type"], op["field"])
                 fn = last_fn.get(key) if op.get("reuse") and key in last_fn else make_resolver(op["sig"])
@@ -2597,6 +2662,18 @@ def stream_histories(ctx, batch):
             rep = [o for o in ops if o["op"] == "replace_types"] or [o for o in gen_history(rng, base, 12) if o["op"] == "replace_types"]
             if rep:
                 ops = [{"op": "validate"}, rep[0], {"op": "validate"}]
+        if rng.random() < 0.15:
+            # targeted: an explicit-parameter resolver, validate, then the field's arguments are replaced, validate
+            objs_ = [t for t in base["types"] if t["kind"] == "object"]
+            t_ = rng.choice(objs_)
+            f_ = rng.choice(t_["fields"])
+            names_ = [a["name"] for a in f_.get("args") or []]
+            if all(n.isidentifier() and not n.startswith("__") for n in names_) and len(set(names_)) == len(names_):
+                ops = [{"op": "register_resolver", "type": t_["name"], "field": f_["name"], "allow_override": True, "reuse": False,
+                        "sig": ", ".join(["root", "ctx", "info"] + ["%s=None" % n for n in names_])},
+                       {"op": "validate"},
+                       {"op": "assign_arguments", "type": t_["name"], "field": f_["name"], "mode": rng.choice(["add_required", "add_optional", "add_required"])},
+                       {"op": "validate"}]
         start = dump(s)
         cached0 = verdict_cached(s)      # build_schema validates while building
         trace, mops = run_history_real(s, ops)
